@@ -362,7 +362,9 @@ ADDENDA2 = {
     "C19": "Also: trace TakeFileSnapshot's link loop looks at every file-backed part (fragment); in snapshotInto the segment mutex "
            "is released early only on the skip path or after pinning an open segment (thin). Also (thin, banyand/backup): in backupSnapshot's walk "
            "callback, a key taken out of the set of remote files (whose remainder is deleted as orphans) is a key just found in "
-           "that set - a clause over the operands of the built-in delete, naming no local.",
+           "that set - a clause over the operands of the built-in delete, naming no local; backup.contains is exactly membership "
+           "(full). In CreateHardLink and its walk callback every success answer (return nil) is reached with no error pending "
+           "(thin).",
 }
 for _k, _v in ADDENDA2.items():
     ADDENDA[_k] = (ADDENDA.get(_k, "") + " " + _v).strip()
